@@ -1,5 +1,5 @@
 """Sidecar: contracts on the real functions of /repo, keyed by file::qualname.  Nothing here edits /repo."""
-MODULES=['bits_reg','dsl','mem','sched','nets','upblk','gendag','portrules','mambaff','sccwrap','watched','netrules','vcdfn']
+MODULES=['bits_reg','dsl','mem','sched','nets','upblk','gendag','portrules','mambaff','sccwrap','watched','netrules','vcdfn','flipgroup']
 
 def rtl_specs():
   from . import rtl_arb, rtl_queues, rtl_cksum
@@ -128,7 +128,7 @@ PROPERTIES={
    explanation="one small function proved deductively; the pass-level contract is evaluated natively on an enumerated design zoo (bounded)",
    extra=['contracts:c02_extra'], require_cover=False, assumptions=["AstHelper read/write extraction"]),
  'C07': dict(level='other',
-   claim="Mixed. Proved (all widths/values; all enumerated struct shapes): Bits.__ilshift__ writes only the shadow value (_next) with exactly the accepted range and leaves the visible value alone, Bits._flip commits exactly the last assigned value, and the generated bitstruct __ilshift__/_flip do the same leaf by leaf without aliasing the source; Mamba2020Pass.schedule_ff (packing of the update_ff blocks into compiled meta blocks) puts every update_ff block into exactly one meta block for arbitrary branchiness values and thresholds. Bounded stand-in: on the register families C and R of the design zoo the generated double-buffer function flips exactly the signals written with <<= (each once), register traces are identical for every order of the update_ff blocks and every pass group, and equal a pre-edge reference model (family R: 61 register hierarchies incl. flat designs with up to 24 branchy blocks and two/three-level hierarchies, values after sim_reset() and after every tick).",
+   claim="Mixed. Proved (all widths/values; all enumerated struct shapes): Bits.__ilshift__ writes only the shadow value (_next) with exactly the accepted range and leaves the visible value alone, Bits._flip commits exactly the last assigned value, and the generated bitstruct __ilshift__/_flip do the same leaf by leaf without aliasing the source; Mamba2020Pass.schedule_ff (packing of the update_ff blocks into compiled meta blocks) puts every update_ff block into exactly one meta block for arbitrary branchiness values and thresholds; SimpleSchedulePass.schedule_ff is exactly the set of update_ff blocks; the grouping step of schedule_posedge_flip (a region of the function) keeps every signal that needs double buffering in exactly one list and adds nothing, however often the lists are re-grouped under parent objects. Bounded stand-in: on the register families C and R of the design zoo the generated double-buffer function flips exactly the signals written with <<= (each once), register traces are identical for every order of the update_ff blocks and every pass group, and equal a pre-edge reference model (family R: 61 register hierarchies incl. flat designs with up to 24 branchy blocks and two/three-level hierarchies, values after sim_reset() and after every tick).",
    note="schedule_posedge_flip / collect_ff_funcs / lock_in_simulation are checked only through their effect on zoo designs (bounded), not by discharged contracts.",
    explanation="double-buffer primitives proved deductively; tick composition checked natively on an enumerated zoo (bounded)",
    extra=['contracts:c07_extra'], require_cover=False, assumptions=["user code does not rebind signals with plain '=' at simulation time"]),
